@@ -1,4 +1,5 @@
 import BridgeVerif.Core
+import BridgeVerif.Generated.ScoreTables
 /-!
 # Model of score.py  (C07, C16)
 
@@ -7,38 +8,34 @@ import BridgeVerif.Core
 -/
 namespace Bridge
 
-def MINOR : Int := 20
-def MAJOR : Int := 30
-def NTB : Int := 10
-def MAKE : Int := 50
-def MAKE_X : Int := 50
-def MAKE_XX : Int := 50
-def GAME : Int := 250
-def GAME_VUL : Int := 450
-def SMALL_SLAM : Int := 500
-def SMALL_SLAM_VUL : Int := 750
-def GRAND_SLAM : Int := 500
-def GRAND_SLAM_VUL : Int := 750
-def OVERTRICK_X : Int := 100
-def OVERTRICK_X_VUL : Int := 200
-def OVERTRICK_XX : Int := 200
-def OVERTRICK_XX_VUL : Int := 400
+/-! The constants and tables are NOT copied here: they are the values translated from bridge_env/score.py on every run
+(Generated/ScoreTables.lean, harness/translate_score.py). -/
+open Generated.Score in
+def MINOR : Int := Generated.Score.MINOR
+def MAJOR : Int := Generated.Score.MAJOR
+def NTB : Int := Generated.Score.NTB
+def MAKE : Int := Generated.Score.MAKE
+def MAKE_X : Int := Generated.Score.MAKE_X
+def MAKE_XX : Int := Generated.Score.MAKE_XX
+def GAME : Int := Generated.Score.GAME
+def GAME_VUL : Int := Generated.Score.GAME_VUL
+def SMALL_SLAM : Int := Generated.Score.SMALL_SLAM
+def SMALL_SLAM_VUL : Int := Generated.Score.SMALL_SLAM_VUL
+def GRAND_SLAM : Int := Generated.Score.GRAND_SLAM
+def GRAND_SLAM_VUL : Int := Generated.Score.GRAND_SLAM_VUL
+def OVERTRICK_X : Int := Generated.Score.OVERTRICK_X
+def OVERTRICK_X_VUL : Int := Generated.Score.OVERTRICK_X_VUL
+def OVERTRICK_XX : Int := Generated.Score.OVERTRICK_XX
+def OVERTRICK_XX_VUL : Int := Generated.Score.OVERTRICK_XX_VUL
 
-def DOWN : List Int := [-50, -100, -150, -200, -250, -300, -350, -400, -450, -500, -550, -600, -650]
-def DOWN_VUL : List Int :=
-  [-100, -200, -300, -400, -500, -600, -700, -800, -900, -1000, -1100, -1200, -1300]
-def DOWN_X : List Int :=
-  [-100, -300, -500, -800, -1100, -1400, -1700, -2000, -2300, -2600, -2900, -3200, -3500]
-def DOWN_X_VUL : List Int :=
-  [-200, -500, -800, -1100, -1400, -1700, -2000, -2300, -2600, -2900, -3200, -3500, -3800]
-def DOWN_XX : List Int :=
-  [-200, -600, -1000, -1600, -2200, -2800, -3400, -4000, -4600, -5200, -5800, -6400, -7000]
-def DOWN_XX_VUL : List Int :=
-  [-400, -1000, -1600, -2200, -2800, -3400, -4000, -4600, -5200, -5800, -6400, -7000, -7600]
+def DOWN : List Int := Generated.Score.DOWN
+def DOWN_VUL : List Int := Generated.Score.DOWN_VUL
+def DOWN_X : List Int := Generated.Score.DOWN_X
+def DOWN_X_VUL : List Int := Generated.Score.DOWN_X_VUL
+def DOWN_XX : List Int := Generated.Score.DOWN_XX
+def DOWN_XX_VUL : List Int := Generated.Score.DOWN_XX_VUL
 
-def IMPS_LIST : List Int :=
-  [20, 50, 90, 130, 170, 220, 270, 320, 370, 430, 500, 600, 750, 900, 1100,
-   1300, 1500, 1750, 2000, 2250, 2500, 3000, 3500, 4000]
+def IMPS_LIST : List Int := Generated.Score.IMPS_LIST
 
 /-- `calc_bid_score(bid, x, xx, vul, taken_trick_num)` for a real bid.
 A Python tuple index out of range cannot occur for `tricks ≤ 13` (down_n ≤ 13);
